@@ -1,6 +1,8 @@
 import Pixman.Spec.PointSet
 import Pixman.Spec.Canon
 import Pixman.Lemmas.RegionCanon
+import Pixman.Props.C05
+import Pixman.Props.C07
 /-! C06 — property theorems: the canonical banded form is unique for a point set, and
     `pixman_region_equal` decides set equality on canonical regions. -/
 namespace Pixman.Props.C06
@@ -158,5 +160,147 @@ theorem equal_iff_mem {a b : Region} (ha : Canon a) (hb : Canon b) :
 
 example : equal exE init = true := by decide
 example : equal exR exR = true ∧ equal exR exS = false := by decide
+
+/-! ### history closure: every region any sequence of operations can produce is canonical -/
+
+/-- truncation to `n ≥ 1` bits lands in the signed `n`-bit range -/
+theorem wrapS_range (n : Nat) (hn : 1 ≤ n) (v : Int) :
+    -(2 ^ (n - 1) : Int) ≤ wrapS n v ∧ wrapS n v < (2 ^ (n - 1) : Int) := by
+  have hm : (2 ^ n : Int) = 2 * 2 ^ (n - 1) := by
+    have : n = (n - 1) + 1 := by omega
+    conv => lhs; rw [this, Int.pow_succ]
+    omega
+  have hpos : (0 : Int) < 2 ^ (n - 1) := Int.pow_pos (by decide)
+  simp only [wrapS, hm]
+  generalize (2 ^ (n - 1) : Int) = H at *
+  have hdiv : 2 * H / 2 = H := by omega
+  rw [hdiv]
+  have h1 := Int.emod_nonneg v (show (2 * H) ≠ 0 by omega)
+  have h2 := Int.emod_lt_of_pos v (show 0 < 2 * H by omega)
+  generalize v % (2 * H) = r at *
+  simp only [ge_iff_le]
+  split <;> constructor <;> omega
+
+/-- The regions reachable with the API of the model, instantiated at `c`.  One constructor per
+    operation; operands must themselves be reachable; `same`/`al` are the aliasing facts of the
+    call and must be consistent with the operands; the old value `d` of the destination object
+    only has to be reachable.  Rectangles are given as the C callers give them: any `x y w h`
+    (sums truncated), box lists with representable coordinates, non-degenerate boxes for
+    `reset`/`inverse` (the documented preconditions).  The 16<->32 conversions take ANY source
+    region (for 16->32 with coordinates representable in 32 bits). -/
+inductive Reachable (c : Cfg) : Region → Prop
+  | init : Reachable c init
+  | initRect (x y : Int) (w h : Nat) : Reachable c (initRect c x y w h)
+  | initWithExtents (e : Box) : Reachable c (initWithExtents e)
+  | initRects (boxes : List Box) (hr : ∀ b ∈ boxes, BoxInRange c b) :
+      Reachable c (initRects c boxes).1
+  | copy {d s : Region} : Reachable c d → Reachable c s → Reachable c (copy d s)
+  | reset (b : Box) (hg : goodRect b = true) : Reachable c (reset b)
+  | clear : Reachable c clear
+  | union (same : Bool) (al : Alias) {d a b : Region} : Reachable c d → Reachable c a →
+      Reachable c b → (same = true → a = b) → (al = .first → d = a) → (al = .second → d = b) →
+      Reachable c (union same al d a b).1
+  | intersect (same : Bool) {d a b : Region} : Reachable c d → Reachable c a → Reachable c b →
+      (same = true → a = b) → Reachable c (intersect same d a b).1
+  | subtract (same : Bool) {d m s : Region} : Reachable c d → Reachable c m → Reachable c s →
+      (same = true → m = s) → Reachable c (subtract same d m s).1
+  | inverse {d a : Region} (invRect : Box) (hg : goodRect invRect = true) : Reachable c d →
+      Reachable c a → Reachable c (inverse d a invRect).1
+  | unionRect (al : Alias) {d s : Region} (x y : Int) (w h : Nat) : Reachable c d →
+      Reachable c s → (al = .first → d = s) → al ≠ .second →
+      Reachable c (unionRect c al d s x y w h).1
+  | intersectRect {d s : Region} (x y : Int) (w h : Nat) : Reachable c d → Reachable c s →
+      Reachable c (intersectRect c d s x y w h).1
+  | translate {r : Region} (dx dy : Int) : Reachable c r → Reachable c (translate c r dx dy)
+  | initFromImage (w : Nat) (rows : List (List Bool)) (hw : ∀ row ∈ rows, row.length = w) :
+      Reachable c (initFromImage w rows)
+  | region16FromRegion32 (src : Region) : Reachable c (region16FromRegion32 src).1
+  | region32FromRegion16 (src : Region) (hr : ∀ b ∈ src.rects, BoxInRange c32 b) :
+      Reachable c (region32FromRegion16 src).1
+
+/-- C06 (1): every reachable region is canonical. -/
+theorem reachable_canon (c : Cfg) (hb1 : 1 ≤ c.bits) (hb2 : c.bits ≤ 32) {r : Region}
+    (h : Reachable c r) : Canon r := by
+  induction h with
+  | init => exact canon_init
+  | initRect x y w h => exact canon_initRect c x y w h
+  | initWithExtents e => exact canon_initWithExtents e
+  | initRects boxes hr => exact (Pixman.Props.C05.initRects_exact c hb1 hb2 boxes hr).2.1
+  | copy _ _ _ ihs => exact ihs
+  | reset b hg => exact canon_reset hg
+  | clear => exact canon_clear
+  | union same al _ _ _ hs h1 h2 _ iha ihb =>
+    exact (Pixman.Props.C05.union_exact same al _ _ _ iha ihb hs h1 h2).2.1
+  | intersect same _ _ _ hs _ iha ihb =>
+    exact (Pixman.Props.C05.intersect_exact same _ _ _ iha ihb hs).2.1
+  | subtract same _ _ _ hs _ ihm ihs =>
+    exact (Pixman.Props.C05.subtract_exact same _ _ _ ihm ihs hs).2.1
+  | inverse invRect hg _ _ _ iha =>
+    exact (Pixman.Props.C05.inverse_exact _ _ invRect iha hg).2.1
+  | unionRect al x y w h _ _ h1 h2 _ ihs =>
+    exact (Pixman.Props.C05.unionRect_exact c al _ _ x y w h ihs h1 h2).2.1
+  | intersectRect x y w h _ _ _ ihs =>
+    exact (Pixman.Props.C05.intersectRect_exact c _ _ x y w h ihs).2.1
+  | translate dx dy _ ih => exact Pixman.Props.C07.translate_canon c hb1 ih dx dy
+  | initFromImage w rows hw => exact Pixman.Props.C07.initFromImage_canon w rows hw
+  | region16FromRegion32 src =>
+    refine (Pixman.Props.C05.initRects_exact c16 (by decide) (by decide) _ ?_).2.1
+    intro b hb
+    obtain ⟨q, _, rfl⟩ := List.mem_map.1 hb
+    have r1 := wrapS_range 16 (by decide) q.x1
+    have r2 := wrapS_range 16 (by decide) q.y1
+    have r3 := wrapS_range 16 (by decide) q.x2
+    have r4 := wrapS_range 16 (by decide) q.y2
+    have e1 : c16.min = -(2 ^ (16 - 1) : Int) := rfl
+    have e2 : c16.max = (2 ^ (16 - 1) : Int) - 1 := rfl
+    simp only [BoxInRange, e1, e2]
+    omega
+  | region32FromRegion16 src hr =>
+    exact (Pixman.Props.C05.initRects_exact c32 (by decide) (by decide) _ hr).2.1
+
+/-- a reachable history: a heap region built by `init_rects`, translated, united in place with
+    a rectangle, and intersected with a region read from a bitmap -/
+def exHist : Region :=
+  (intersect false init
+    (unionRect c16 .first
+      (translate c16 (initRects c16 [⟨5, 5, 9, 9⟩, ⟨0, 0, 6, 6⟩, ⟨3, 3, 3, 8⟩]).1 2 (-1))
+      (translate c16 (initRects c16 [⟨5, 5, 9, 9⟩, ⟨0, 0, 6, 6⟩, ⟨3, 3, 3, 8⟩]).1 2 (-1))
+      4 4 20 3).1
+    (initFromImage 3 [[true, false, true], [true, true, true]])).1
+
+theorem exHist_reachable : Reachable c16 exHist := by
+  have hI : Reachable c16 (initRects c16 [⟨5, 5, 9, 9⟩, ⟨0, 0, 6, 6⟩, ⟨3, 3, 3, 8⟩]).1 := by
+    refine Reachable.initRects _ ?_
+    intro b hb
+    simp only [List.mem_cons, List.not_mem_nil, or_false] at hb
+    rcases hb with rfl | rfl | rfl <;> simp only [BoxInRange] <;> decide
+  exact Reachable.intersect false Reachable.init
+    (Reachable.unionRect .first 4 4 20 3 (Reachable.translate 2 (-1) hI)
+      (Reachable.translate 2 (-1) hI) (fun _ => rfl) (by decide))
+    (Reachable.initFromImage 3 _ (by decide)) (fun e => by cases e)
+
+example : Canon exHist := reachable_canon c16 (by decide) (by decide) exHist_reachable
+
+/-- C06 (3) on reachable regions: `pixman_region_equal` is equality of point sets. -/
+theorem reachable_equal_iff (c : Cfg) (hb1 : 1 ≤ c.bits) (hb2 : c.bits ≤ 32) {a b : Region}
+    (ha : Reachable c a) (hb : Reachable c b) :
+    equal a b = true ↔ ∀ x y, a.Mem x y ↔ b.Mem x y :=
+  equal_iff_mem (reachable_canon c hb1 hb2 ha) (reachable_canon c hb1 hb2 hb)
+
+example : equal exHist exHist = true ↔ ∀ x y, exHist.Mem x y ↔ exHist.Mem x y :=
+  reachable_equal_iff c16 (by decide) (by decide) exHist_reachable exHist_reachable
+
+/-- C06 (2) on reachable regions: the same points by two different histories give the same
+    rectangle list (and, when non-empty, the same object). -/
+theorem reachable_same_points_same_rects (c : Cfg) (hb1 : 1 ≤ c.bits) (hb2 : c.bits ≤ 32)
+    {a b : Region} (ha : Reachable c a) (hb : Reachable c b)
+    (h : ∀ x y, a.Mem x y ↔ b.Mem x y) :
+    a.rects = b.rects ∧ ((∃ x y, a.Mem x y) → a = b) :=
+  ⟨canon_rects_unique (reachable_canon c hb1 hb2 ha) (reachable_canon c hb1 hb2 hb) h,
+    fun hne => canon_unique (reachable_canon c hb1 hb2 ha) (reachable_canon c hb1 hb2 hb) h hne⟩
+
+example : exHist.rects = (copy init exHist).rects ∧ ((∃ x y, exHist.Mem x y) → exHist = copy init exHist) :=
+  reachable_same_points_same_rects c16 (by decide) (by decide) exHist_reachable
+    (Reachable.copy Reachable.init exHist_reachable) (fun _ _ => Iff.rfl)
 
 end Pixman.Props.C06
